@@ -126,4 +126,7 @@ ViolKey(f, r) ==
   "handler-reached/" \o (IF ~Authentic(f, r) THEN "unauthenticated" ELSE "missing-permission")
   \o "/" \o Effective(f, r)
   \o "/ma=" \o Bool2S(f.ma) \o ",lw=" \o Bool2S(f.lw) \o ",perms=" \o Bool2S(NeedsPerms(f))
+  \* what the user NAMED by the credential holds in the local database (whose rights leaked, if any)
+  \o "/named-holds=" \o Bool2S(r.sub # "" /\ NeedsPerms(f) /\ Range(f.perms) \subseteq r.subperms)
+  \o ",named-root=" \o Bool2S(Root \in r.subperms)
 =============================================================================
